@@ -4,4 +4,5 @@ set -eu
 cd "$(dirname "$0")"
 export CARGO_NET_OFFLINE=true
 cargo build --release --offline --manifest-path harness/Cargo.toml 2>&1 | tail -3
+cargo build --profile plain --offline --manifest-path harness/Cargo.toml 2>&1 | tail -3
 echo "setup ok"
